@@ -29,7 +29,17 @@ func (o *optimizer) optimizeAllFiles(printer FilePrinter) {
 		return
 	}
 
+	// with test packages loaded, a package that has in-package tests comes twice
+	// (p and p [p.test]) and both variants share the syntax trees of the non-test
+	// files: every pass below has already been applied to such a tree, and the
+	// import clean-up is not idempotent (its second run drops blank imports)
+	done := map[*ast.File]bool{}
 	o.m.Loader.VisitAllFiles(func(f *loader.File) {
+		if done[f.File] {
+			log.Printf("skip file (visited with another variant of its package): %s\n", f.Filename)
+			return
+		}
+		done[f.File] = true
 		if !imports.Uses(f, seqPkg.Types) {
 			log.Printf("skip file: %s\n", f.Filename)
 			return
